@@ -199,7 +199,8 @@ MANIFEST = dict(
          "supported regex constructs, gen returns a value for every in-range draw list). Tie: the sequence of draw "
          "requests and the generated value of model and code are compared under 6 draw policies plus single-position "
          "extremes, with the generation constants regenerated from the source; search: fake under scripted and real RNG "
-         "then validate on the real code.",
+         "then validate on the real code."
+         " Source pins: the normalised text of every anchor file is compared with the text the model was last validated against; a changed file is a broken obligation (no-failing-input-found unless the search finds an input).",
     note="Partial: GenHyp / totality hypotheses exclude exactly the recorded findings K2 K3 K4 K5 K11 (each with a "
          "counter-example theorem or witness replay). Trusted: Lean kernel + standard axioms, hand model (sampling tie), "
          "codec, CPython RNG contracts (answers inside the requested range), re.search table (RxComplete), IEEE rounding "
